@@ -682,3 +682,325 @@ Proof.
   intros flag l s l' Hin. destruct (stem_prefix_path l l' Hin) as (_ & Hne & Hp).
   unfold nodeof. rewrite add_lru_tr. apply find_ins_prefix; assumption.
 Qed.
+
+(* ---- storage accounting ------------------------------------------------- *)
+
+Lemma nprefixes_length : forall ss pre p, In p (nprefixes pre ss) -> (length pre < length p)%nat.
+Proof.
+  induction ss as [|s r IH]; intros pre p H; [destruct H|].
+  cbn [nprefixes In] in H. destruct H as [<-|H].
+  - rewrite app_length. cbn [length]. lia.
+  - apply IH in H. rewrite app_length in H. cbn [length] in H. lia.
+Qed.
+
+Lemma nprefixes_nodup : forall ss pre, NoDup (nprefixes pre ss).
+Proof.
+  induction ss as [|s r IH]; intro pre; cbn [nprefixes]; constructor.
+  - intro H. apply nprefixes_length in H. lia.
+  - apply IH.
+Qed.
+
+Lemma NoDup_map_inj_in : forall (A B : Type) (f : A -> B) (L : list A),
+  NoDup L -> (forall x y, In x L -> In y L -> f x = f y -> x = y) -> NoDup (map f L).
+Proof.
+  intros A B f L Hnd. induction Hnd as [|x L Hx Hnd IH]; intro Hinj; cbn [map]; constructor.
+  - intro H. apply in_map_iff in H. destruct H as (y & Hy & Hin).
+    assert (y = x) by (apply Hinj; [right; exact Hin|left; reflexivity|exact Hy]).
+    subst. contradiction.
+  - apply IH. intros a b Ha Hb. apply Hinj; right; assumption.
+Qed.
+
+Lemma stem_prefixes_nodup : forall l, NoDup (stem_prefixes l).
+Proof.
+  intro l. rewrite stem_prefixes_eq. apply NoDup_map_inj_in; [apply nprefixes_nodup|].
+  intros p q Hp Hq E. apply In_nprefixes in Hp, Hq.
+  apply concat_stems_inj; [| |exact E].
+  - eapply Forall_prefix; [apply Hp|apply lru_iter_wf].
+  - eapply Forall_prefix; [apply Hq|apply lru_iter_wf].
+Qed.
+
+Lemma mem_bytes_app1 : forall x k y, x <> y -> mem_bytes x (k ++ [y]) = mem_bytes x k.
+Proof.
+  intros x k y Hne. destruct (mem_bytes x k) eqn:E.
+  - apply mem_bytes_In. apply in_or_app. left. apply mem_bytes_In. exact E.
+  - apply mem_bytes_nIn. apply mem_bytes_nIn in E. rewrite in_app_iff. cbn [In].
+    intros [H|[H|[]]]; [contradiction|congruence].
+Qed.
+
+Lemma fold_add_set_app : forall ps k, NoDup ps ->
+  fold_left (fun k p => add_set p k) ps k = k ++ filter (fun x => negb (mem_bytes x k)) ps.
+Proof.
+  induction ps as [|p ps IH]; intros k Hnd; cbn [fold_left filter]; [symmetry; apply app_nil_r|].
+  inversion Hnd as [|? ? Hp Hnd']. subst.
+  rewrite (IH _ Hnd'). unfold add_set. destruct (mem_bytes p k) eqn:E; cbn [negb].
+  - reflexivity.
+  - rewrite <- app_assoc. cbn [app]. f_equal. f_equal.
+    apply filter_ext_in. intros x Hx. rewrite mem_bytes_app1; [reflexivity|].
+    intro Ex. subst. contradiction.
+Qed.
+
+Lemma know_app : forall l k,
+  know l k = k ++ filter (fun x => negb (mem_bytes x k)) (stem_prefixes l).
+Proof. intros. apply fold_add_set_app. apply stem_prefixes_nodup. Qed.
+
+Lemma fold_left_add_sum : forall (A : Type) (w : A -> N) (L : list A) (acc : N),
+  fold_left (fun n p => n + w p) L acc = acc + fold_right N.add 0 (map w L).
+Proof.
+  intros A w L. induction L as [|x L IH]; intro acc; cbn [fold_left map fold_right]; [lia|].
+  rewrite IH. lia.
+Qed.
+
+Lemma filter_map_comm : forall (A B : Type) (f : A -> B) (g : B -> bool) (L : list A),
+  filter g (map f L) = map f (filter (fun x => g (f x)) L).
+Proof.
+  intros A B f g L. induction L as [|x L IH]; [reflexivity|].
+  cbn [map filter]. destruct (g (f x)); cbn [map]; rewrite IH; reflexivity.
+Qed.
+
+(* the stems add_lru creates are the last stems of the stem-prefixes not yet known *)
+Lemma missing_known : forall s a l, Rcore s a ->
+  map nblk (missing (tr s) (lru_iter l)) =
+  map (fun p => nblk (last (lru_iter p) []))
+      (filter (fun x => negb (mem_bytes x (a_known a))) (stem_prefixes l)).
+Proof.
+  intros s a l HR. unfold missing. rewrite stem_prefixes_eq, filter_map_comm, !map_map.
+  assert (Hgood : forall p, In p (nprefixes [] (lru_iter l)) ->
+            Forall wf_stem p /\ p <> []).
+  { intros p Hp. apply In_nprefixes in Hp. destruct Hp as [Hne Hp]. split; [|exact Hne].
+    eapply Forall_prefix; [exact Hp|apply lru_iter_wf]. }
+  rewrite (filter_ext_in
+             (fun p => match find p (tr s) with None => true | Some _ => false end)
+             (fun p => negb (mem_bytes (concat p) (a_known a)))).
+  - apply map_ext_in. intros p Hp. apply filter_In in Hp. destruct Hp as [Hp _].
+    destruct (Hgood p Hp) as [Hw _]. rewrite lru_iter_concat_stems by exact Hw. reflexivity.
+  - intros p Hp. destruct (Hgood p Hp) as [Hw Hne].
+    assert (Hl : wf_lru (concat p)) by (apply wf_lru_concat; assumption).
+    pose proof (mem_known_nodeof s a (concat p) HR Hl) as B.
+    rewrite nodeof_concat in B by exact Hw.
+    destruct (find p (tr s)) as [d|]; destruct (mem_bytes (concat p) (a_known a)); cbn [negb];
+      try reflexivity.
+    + exfalso. destruct B as [_ B].
+      assert (Y : false = true) by (apply B; discriminate). discriminate.
+    + exfalso. destruct B as [B _]. apply B; reflexivity.
+Qed.
+
+Lemma add_lru_nb_spec : forall flag l s a, Rcore s a ->
+  nb (fst (add_lru flag l s)) = s_trie_blocks (upd_known (know l) a).
+Proof.
+  intros flag l s a HR. rewrite add_lru_nb, ins_nb_spec, (R_nb s a HR).
+  unfold s_trie_blocks, upd_known. cbn [a_known].
+  rewrite know_app, fold_left_app.
+  rewrite (fold_left_add_sum _ (fun p => nblk (last (lru_iter p) [])) (filter _ _)).
+  rewrite (missing_known s a l HR). lia.
+Qed.
+
+(* ---- add_lru preserves the relation -------------------------------------- *)
+
+Lemma add_lru_Rcore : forall flag l s a, wf_lru l -> Rcore s a ->
+  Rcore (fst (add_lru flag l s)) (upd_known (know l) a).
+Proof.
+  intros flag l s a Hl HR.
+  pose proof (add_lru_fields flag l s) as (Flast & Fstubs & Frules & Fdflt).
+  (* two generic transfer facts, at the level of stem lists *)
+  assert (FWD : forall p d, find p (tr s) = Some d ->
+            exists d', find p (tr (fst (add_lru flag l s))) = Some d' /\ same_data d d').
+  { intros p d Hd. rewrite add_lru_tr. apply find_ins_fwd. exact Hd. }
+  assert (BWD : forall p d', find p (tr (fst (add_lru flag l s))) = Some d' ->
+            (exists d, find p (tr s) = Some d /\ same_data d d') \/
+            (find p (tr s) = None /\ is_prefix p (lru_iter l) = true /\
+             page d' = false /\ crawled d' = false /\ rule d' = false /\ we d' = 0 /\
+             outh d' = 0 /\ inh d' = 0)).
+  { intros p d' Hd'. rewrite add_lru_tr in Hd'. eapply find_ins_cases. exact Hd'. }
+  constructor; unfold upd_known; cbn [a_pages a_known a_pref a_links a_last a_flags a_rules a_dflt].
+  - (* R_wf *)
+    rewrite add_lru_tr. apply ins_wf; [apply lru_iter_wf|apply (R_wf s a HR)].
+  - (* R_known *)
+    intros l' Hl'. rewrite In_know. split.
+    + intro H. destruct (nodeof (fst (add_lru flag l s)) l') as [d'|] eqn:E; [|congruence].
+      destruct (BWD _ _ E) as [(d & Hd & _)|(Hn & Hp & _)].
+      * right. apply (R_known s a HR l' Hl'). unfold nodeof. congruence.
+      * left. apply (is_prefix_iff l l' Hl Hl'). exact Hp.
+    + intros [H|H].
+      * apply add_lru_prefix. exact H.
+      * apply add_lru_mono. apply (R_known s a HR l' Hl'). exact H.
+  - (* R_known_wf *)
+    apply Forall_know. apply (R_known_wf s a HR).
+  - (* R_known_nodup *)
+    apply NoDup_know. apply (R_known_nodup s a HR).
+  - (* R_pages *)
+    intros l' c Hl'. rewrite (R_pages s a HR l' c Hl'). split.
+    + intros (d & Hd & Hp & Hc). destruct (FWD _ _ Hd) as (d' & Hd' & Hs).
+      apply same_data_proj in Hs. exists d'. split; [exact Hd'|]. split; [|]; destruct Hs as (? & ? & _); congruence.
+    + intros (d' & Hd' & Hp & Hc). destruct (BWD _ _ Hd') as [(d & Hd & Hs)|(_ & _ & Hpg & _)].
+      * apply same_data_proj in Hs. exists d. split; [exact Hd|].
+        split; [|]; destruct Hs as (? & ? & _); congruence.
+      * congruence.
+  - apply (R_pages_wf s a HR).
+  - apply (R_pages_nodup s a HR).
+  - (* R_crawled *)
+    intros p d' Hd' Hc. destruct (BWD _ _ Hd') as [(d & Hd & Hs)|(_ & _ & _ & Hcr & _)].
+    + apply same_data_proj in Hs. destruct Hs as (Hpg & Hcr & _).
+      rewrite Hpg. apply (R_crawled s a HR p d Hd). congruence.
+    + congruence.
+  - (* R_pref *)
+    intros l' w Hl'. rewrite (R_pref s a HR l' w Hl'). split.
+    + intros (d & Hd & Hw & Hne). destruct (FWD _ _ Hd) as (d' & Hd' & Hs).
+      apply same_data_proj in Hs. exists d'. split; [exact Hd'|].
+      split; [|exact Hne]. destruct Hs as (_ & _ & _ & Hwe & _). congruence.
+    + intros (d' & Hd' & Hw & Hne). destruct (BWD _ _ Hd') as [(d & Hd & Hs)|(_ & _ & _ & _ & _ & Hwe & _)].
+      * apply same_data_proj in Hs. exists d. split; [exact Hd|].
+        split; [|exact Hne]. destruct Hs as (_ & _ & _ & Hwe & _). congruence.
+      * congruence.
+  - apply (R_pref_wf s a HR).
+  - apply (R_pref_nodup s a HR).
+  - rewrite Flast. apply (R_last s a HR).
+  - (* R_flags *)
+    intros l' Hl'. rewrite (R_flags s a HR l' Hl'). split.
+    + intros (d & Hd & Hr). destruct (FWD _ _ Hd) as (d' & Hd' & Hs).
+      apply same_data_proj in Hs. exists d'. split; [exact Hd'|].
+      destruct Hs as (_ & _ & Hru & _). congruence.
+    + intros (d' & Hd' & Hr). destruct (BWD _ _ Hd') as [(d & Hd & Hs)|(_ & _ & _ & _ & Hru & _)].
+      * apply same_data_proj in Hs. exists d. split; [exact Hd|].
+        destruct Hs as (_ & _ & Hru & _). congruence.
+      * congruence.
+  - apply (R_flags_wf s a HR).
+  - rewrite Frules. apply (R_rules s a HR).
+  - rewrite Fdflt. apply (R_dflt s a HR).
+  - (* R_nochild *)
+    intros p q dp' dq' Hp Hnc Hpq Hne Hq.
+    destruct (BWD _ _ Hq) as [(dq & Hdq & Hsq)|(_ & _ & _ & _ & _ & Hwe & _)]; [|exact Hwe].
+    apply same_data_proj in Hsq. destruct Hsq as (_ & _ & _ & Hweq & _). rewrite Hweq.
+    destruct (BWD _ _ Hp) as [(dp & Hdp & Hsp)|(Hnone & _)].
+    + apply same_data_proj in Hsp. destruct Hsp as (_ & _ & _ & _ & _ & _ & _ & _ & _ & Hn).
+      apply (R_nochild s a HR p q dp dq Hdp (Hn Hnc) Hpq Hne Hdq).
+    + exfalso. apply (find_is_prefix_closed p q (tr s)); [|exact Hpq| |exact Hnone].
+      * eapply find_nonempty. exact Hp.
+      * congruence.
+  - (* R_nb *)
+    apply (add_lru_nb_spec flag l s a HR).
+Qed.
+
+(* ---- the walk history ---------------------------------------------------- *)
+
+(* hist_of, folded over the LRUs spelled by the stem-prefixes *)
+Lemma hist_of_nodeof : forall s l,
+  hist_of (tr s) (lru_iter l) =
+  fold_left (fun h x => match nodeof s x with Some d => visit d x h | None => h end)
+            (stem_prefixes l) hist0.
+Proof.
+  intros s l. rewrite stem_prefixes_eq. unfold hist_of. symmetry.
+  apply fold_left_map_in. intros h p Hp. apply In_nprefixes in Hp. destruct Hp as [_ Hp].
+  rewrite nodeof_concat; [reflexivity|]. eapply Forall_prefix; [exact Hp|apply lru_iter_wf].
+Qed.
+
+Definition hist_best (best : option (bytes * N)) (anch : list N) : hist :=
+  match best with
+  | Some (p, w) => mkHist w p (Some (blen p)) anch
+  | None => mkHist 0 [] None anch
+  end.
+
+Lemma hist_best_rules : forall best anch, h_rules (hist_best best anch) = anch.
+Proof. intros [[p w]|] anch; reflexivity. Qed.
+
+Lemma ahist_best : forall a l,
+  ahist a l = hist_best (resolve (a_pref a) l)
+                (map blen (filter (fun p => mem_bytes p (a_flags a)) (stem_prefixes l))).
+Proof. intros a l. unfold ahist, hist_best. destruct (resolve (a_pref a) l) as [[p w]|]; reflexivity. Qed.
+
+Lemma visit_step : forall s a x best anch, Rcore s a -> wf_lru x ->
+  match nodeof s x with Some d => visit d x (hist_best best anch) | None => hist_best best anch end =
+  hist_best (match aget x (a_pref a) with Some w => Some (x, w) | None => best end)
+            (if mem_bytes x (a_flags a) then anch ++ [blen x] else anch).
+Proof.
+  intros s a x best anch HR Hx.
+  pose proof (aget_pref_iff s a x) as BP. pose proof (aget_pref_none s a x HR Hx) as BN.
+  pose proof (mem_flags_nodeof s a x HR Hx) as BF.
+  destruct (nodeof s x) as [d|] eqn:Hd.
+  - assert (Hfl : mem_bytes x (a_flags a) = rule d).
+    { destruct (rule d) eqn:Er.
+      - apply BF. exists d. auto.
+      - destruct (mem_bytes x (a_flags a)); [|reflexivity].
+        destruct BF as [BF _]. destruct (BF eq_refl) as (d2 & Hd2 & Hr). congruence. }
+    rewrite Hfl. unfold visit. destruct (N.eqb_spec (we d) 0) as [E|E].
+    + assert (Hag : aget x (a_pref a) = None).
+      { apply BN. intros d2 Hd2. congruence. }
+      rewrite Hag. destruct (rule d); [|reflexivity].
+      rewrite hist_best_rules. destruct best as [[p w]|]; reflexivity.
+    + assert (Hag : aget x (a_pref a) = Some (we d)).
+      { apply (BP (we d) HR Hx). exists d. auto. }
+      rewrite Hag. rewrite hist_best_rules. destruct (rule d); reflexivity.
+  - assert (Hfl : mem_bytes x (a_flags a) = false).
+    { destruct (mem_bytes x (a_flags a)); [|reflexivity].
+      destruct BF as [BF _]. destruct (BF eq_refl) as (d2 & Hd2 & _). discriminate. }
+    assert (Hag : aget x (a_pref a) = None).
+    { apply BN. intros d2 Hd2. discriminate. }
+    rewrite Hfl, Hag. reflexivity.
+Qed.
+
+Lemma hist_fold : forall s a, Rcore s a -> forall X, Forall wf_lru X -> forall best anch,
+  fold_left (fun h x => match nodeof s x with Some d => visit d x h | None => h end) X
+            (hist_best best anch) =
+  hist_best (fold_left (fun best p => match aget p (a_pref a) with Some w => Some (p, w) | None => best end)
+                       X best)
+            (anch ++ map blen (filter (fun p => mem_bytes p (a_flags a)) X)).
+Proof.
+  intros s a HR X HX. induction HX as [|x X Hx HX IH]; intros best anch.
+  - cbn [fold_left filter map]. rewrite app_nil_r. reflexivity.
+  - cbn [fold_left filter]. rewrite (visit_step s a x best anch HR Hx), IH.
+    f_equal. destruct (mem_bytes x (a_flags a)); [|reflexivity].
+    cbn [map]. rewrite <- app_assoc. reflexivity.
+Qed.
+
+Lemma add_lru_hist : forall flag l s a, wf_lru l -> Rcore s a ->
+  snd (add_lru flag l s) = ahist a l.
+Proof.
+  intros flag l s a Hl HR.
+  rewrite add_lru_snd, ins_hist, hist_of_nodeof, ahist_best.
+  change hist0 with (hist_best None []).
+  rewrite (hist_fold s a HR (stem_prefixes l) (stem_prefixes_wf' l) None []).
+  reflexivity.
+Qed.
+
+(* ---- extra views of add_lru, convenient when chaining --------------------- *)
+
+(* an old node survives with the same data, up to a cleared nochild bit *)
+Lemma add_lru_fwd : forall flag l s l' d, nodeof s l' = Some d ->
+  exists d', nodeof (fst (add_lru flag l s)) l' = Some d' /\ same_data d d'.
+Proof.
+  intros flag l s l' d Hd. unfold nodeof. rewrite add_lru_tr. apply find_ins_fwd. exact Hd.
+Qed.
+
+(* a node of the new tree is an old one (same data) or a blank new one on the path of l *)
+Lemma add_lru_bwd : forall flag l s l' d', nodeof (fst (add_lru flag l s)) l' = Some d' ->
+  (exists d, nodeof s l' = Some d /\ same_data d d') \/
+  (nodeof s l' = None /\ is_prefix (lru_iter l') (lru_iter l) = true /\
+   page d' = false /\ crawled d' = false /\ rule d' = false /\ we d' = 0 /\ outh d' = 0 /\ inh d' = 0).
+Proof.
+  intros flag l s l' d' Hd'. unfold nodeof in *. rewrite add_lru_tr in Hd'.
+  eapply find_ins_cases. exact Hd'.
+Qed.
+
+(* after add_lru true, every proper stem-prefix of l has its nochild bit cleared *)
+Lemma add_lru_true_ancestors : forall l s l' d', wf_lru l ->
+  In l' (stem_prefixes l) -> l' <> l ->
+  nodeof (fst (add_lru true l s)) l' = Some d' -> nochild d' = false.
+Proof.
+  intros l s l' d' Hl Hin Hne Hd'.
+  destruct (stem_prefix_path l l' Hin) as (Hl' & _ & _).
+  assert (Hb : beq l' l = false) by (apply beq_neq; exact Hne).
+  destruct (nodeof s l') as [d|] eqn:E.
+  - rewrite (add_lru_old true l s l' d Hl Hl' Hin E), Hb in Hd'. cbn in Hd'.
+    injection Hd' as <-. reflexivity.
+  - destruct (add_lru_new true l s l' Hl Hl' Hin E) as (d2 & Hd2 & _ & _ & _ & _ & _ & _ & Hn).
+    rewrite Hd2 in Hd'. injection Hd' as <-. rewrite Hn, Hb. reflexivity.
+Qed.
+
+(* a cleared nochild bit stays cleared *)
+Lemma add_lru_nochild_false : forall flag l s l' d, nodeof s l' = Some d -> nochild d = false ->
+  exists d', nodeof (fst (add_lru flag l s)) l' = Some d' /\ nochild d' = false.
+Proof.
+  intros flag l s l' d Hd Hn. destruct (add_lru_fwd flag l s l' d Hd) as (d' & Hd' & Hs).
+  exists d'. split; [exact Hd'|]. apply same_data_proj in Hs.
+  destruct Hs as (_ & _ & _ & _ & _ & _ & _ & _ & _ & Hi).
+  destruct (nochild d') eqn:E; [|reflexivity]. rewrite (Hi eq_refl) in Hn. discriminate.
+Qed.
